@@ -11,26 +11,27 @@
 (* the bookkeeping against positions recomputed from the final string only.  *)
 EXTENDS Common
 
-AfterPush(st, txt) == [offset |-> st.offset + Len(txt), line |-> st.line, column |-> st.column + Len(txt)]
-AfterNewline(st, txt, base) == [offset |-> st.offset + Len(txt), line |-> st.line + 1, column |-> Len(base)]
+\* a line break is what the library's split_lines() splits at: CR LF, CR or LF - wherever it stands in a pushed string (the newline
+\* string of the options, a text, a placeholder, what a callback returned)
+RECURSIVE CountBr(_, _), LastBrEnd(_, _)
+CountBr(str, i) == IF i > Len(str) THEN 0
+                   ELSE IF At(str, i) = "\r" /\ At(str, i + 1) = "\n" THEN 1 + CountBr(str, i + 2)
+                   ELSE IF At(str, i) \in {"\r", "\n"} THEN 1 + CountBr(str, i + 1)
+                   ELSE CountBr(str, i + 1)
+LastBrEnd(str, i) == IF i < 1 THEN 0 ELSE IF At(str, i) \in {"\r", "\n"} THEN i ELSE LastBrEnd(str, i - 1)
+AfterPush(st, txt) == LET k == CountBr(txt, 1) IN
+                      [offset |-> st.offset + Len(txt), line |-> st.line + k,
+                       column |-> IF k = 0 THEN st.column + Len(txt) ELSE Len(txt) - LastBrEnd(txt, Len(txt))]
+AfterNewline(st, txt, base) == AfterPush(st, txt)          \* line and column follow from the string that is written
 Start == [offset |-> 0, line |-> 0, column |-> 0]
 
-(* positions recomputed from a string: number of newline strings and the     *)
-(* distance to the end of the last one                                       *)
-IsNlAt(str, nl, i) == i + Len(nl) - 1 <= Len(str) /\ SubSeq(str, i, i + Len(nl) - 1) = nl
-RECURSIVE CountNl(_, _, _), LastNlEnd(_, _, _)
-CountNl(str, nl, i) == IF i > Len(str) THEN 0
-                       ELSE IF IsNlAt(str, nl, i) THEN 1 + CountNl(str, nl, i + Len(nl))
-                       ELSE CountNl(str, nl, i + 1)
-LastNlEnd(str, nl, i) == IF i < 1 THEN 0
-                         ELSE IF IsNlAt(str, nl, i) THEN i + Len(nl) - 1
-                         ELSE LastNlEnd(str, nl, i - 1)
-LineOf(str, nl, off) == CountNl(SubSeq(str, 1, off), nl, 1)
-ColumnOf(str, nl, off) == off - LastNlEnd(SubSeq(str, 1, off), nl, off)
+(* positions recomputed from a string alone: number of line breaks before the offset and the distance to the end of the last one *)
+LineOf(str, nl, off) == CountBr(SubSeq(str, 1, off), 1)
+ColumnOf(str, nl, off) == off - LastBrEnd(str, off)
 
 CONSTANTS MaxLen,                 \* bound on the length of the value
           MaxCalls,               \* bound on the number of recorded invocations (history variable)
-          MultiLinePlaceholder    \* TRUE: also push a field whose placeholder contains a line break (finding F20)
+          MultiLinePlaceholder    \* TRUE: also push a field whose placeholder contains a line break
 
 VARIABLES value, st, nl, base, calls
 vars == <<value, st, nl, base, calls>>
